@@ -62,9 +62,11 @@ var boosterTables = []string{"t1", "secret", "tbl", "Abc", "users"}
 func genStatement(t *rapid.T, dialect, label string) string {
 	depth := rapid.SampledFrom([]int{1, 1, 1, 2, 2, 3}).Draw(t, label+".depth")
 	o := sqlgen.Opts{Dialect: dialect, MaxDepth: depth, NoPlaceholders: chance(t, label+".noph", 50)}
-	switch weighted(t, label+".src", 60, 28, 12) {
+	switch weighted(t, label+".src", 50, 24, 10, 16) {
 	case 0:
 		return sqlgen.Statement(t, o)
+	case 3:
+		return genPlain(t, label)
 	case 1:
 		o.MaxDepth = 1
 		inner := cleanSelect(sqlgen.Select(t, o))
@@ -93,6 +95,57 @@ func genStatement(t *rapid.T, dialect, label string) string {
 	}
 }
 
+var plainTemplates = []string{
+	"select C, D from T where C in (L, L, L) and D = L",
+	"select C from T where D = L order by C limit 10",
+	"select * from T where C = L",
+	"select C from T where C = (select max(D) from U where D > L)",
+	"select C from T where D in (select D from U where C = L) and C <> L",
+	"insert into T (C, D) values (L, L)",
+	"insert into T values (L, L), (L, L)",
+	"update T set C = L where D = L",
+	"update T set C = L, D = L where C in (L, L)",
+	"delete from T where C in (L, L)",
+	"delete from T where C = L and D > L",
+	"select C, count(*) from T where D between L and L group by C having count(*) > L",
+	"select T.C, U.D from T join U on T.C = U.C where U.D = L",
+	"select C from T where D = L union select C from U where D = L",
+}
+
+var plainLiterals = []string{"1", "2", "42", "-5", "1.5", "'x'", "'abc'", "'O''Reilly'", "null", "true", "0x1f", "'2020-01-01'"}
+var plainCols = []string{"a", "b", "id", "name1", "user_id"}
+
+// genPlain draws a statement of the everyday shapes firewall patterns are written for.
+func genPlain(t *rapid.T, label string) string {
+	tpl := rapid.SampledFrom(plainTemplates).Draw(t, label+".tpl")
+	tb := rapid.SampledFrom(boosterTables).Draw(t, label+".T")
+	ub := rapid.SampledFrom(boosterTables).Draw(t, label+".U")
+	c := rapid.SampledFrom(plainCols).Draw(t, label+".C")
+	d := rapid.SampledFrom(plainCols).Draw(t, label+".D")
+	var b strings.Builder
+	k := 0
+	for i := 0; i < len(tpl); i++ {
+		ch := tpl[i]
+		bare := (i == 0 || !isWordPart(tpl[i-1])) && (i+1 == len(tpl) || !isWordPart(tpl[i+1]))
+		switch {
+		case ch == 'T' && bare:
+			b.WriteString(tb)
+		case ch == 'U' && bare:
+			b.WriteString(ub)
+		case ch == 'C' && bare:
+			b.WriteString(c)
+		case ch == 'D' && bare:
+			b.WriteString(d)
+		case ch == 'L' && bare:
+			b.WriteString(rapid.SampledFrom(plainLiterals).Draw(t, fmt.Sprintf("%s.L%d", label, k)))
+			k++
+		default:
+			b.WriteByte(ch)
+		}
+	}
+	return b.String()
+}
+
 func genVarOps(t *rapid.T, label string, max int) []VarOp {
 	n := rapid.IntRange(1, max).Draw(t, label+".n")
 	var ops []VarOp
@@ -102,7 +155,7 @@ func genVarOps(t *rapid.T, label string, max int) []VarOp {
 	return ops
 }
 
-var patOpNames = []string{"value", "value", "value", "list", "column", "where", "subquery", "whole", "raw"}
+var patOpNames = []string{"value", "value", "value", "list", "list", "column", "column", "where", "subquery", "subquery", "whole", "raw"}
 var literalTables = []string{"zz_unused", "t1", "a", "secret", "tbl"}
 
 func genRules(t *rapid.T, h *Handler, npool int, label string) {
@@ -110,7 +163,7 @@ func genRules(t *rapid.T, h *Handler, npool int, label string) {
 	if chance(t, label+".empty", 6) {
 		return
 	}
-	nq := weighted(t, label+".nq", 5, 4, 1)
+	nq := weighted(t, label+".nq", 3, 5, 2)
 	for i := 0; i < nq; i++ {
 		q := RuleQ{From: from(fmt.Sprintf(".q%d", i))}
 		if chance(t, fmt.Sprintf("%s.q%dvar", label, i), 50) {
@@ -124,7 +177,7 @@ func genRules(t *rapid.T, h *Handler, npool int, label string) {
 		}
 		return
 	}
-	nt := weighted(t, label+".nt", 5, 4, 2)
+	nt := weighted(t, label+".nt", 4, 4, 3)
 	for i := 0; i < nt; i++ {
 		r := RuleT{From: from(fmt.Sprintf(".t%d", i)), Pick: rapid.IntRange(0, 5).Draw(t, fmt.Sprintf("%s.t%dpick", label, i))}
 		if chance(t, fmt.Sprintf("%s.t%dlit", label, i), 15) {
@@ -132,7 +185,7 @@ func genRules(t *rapid.T, h *Handler, npool int, label string) {
 		}
 		h.Tables = append(h.Tables, r)
 	}
-	np := weighted(t, label+".np", 4, 5, 2, 1)
+	np := weighted(t, label+".np", 2, 5, 3, 1)
 	for i := 0; i < np; i++ {
 		p := RuleP{From: from(fmt.Sprintf(".p%d", i))}
 		nops := rapid.IntRange(0, 3).Draw(t, fmt.Sprintf("%s.p%dn", label, i))
@@ -375,6 +428,9 @@ func CheckVerdict(c Case) (vs hx.Vs, ev evidence) {
 	} else {
 		ev.class("stmt:%s", x.info.kind)
 		for _, o := range x.info.occs {
+			if o.Virtual {
+				continue
+			}
 			ev.class("table-shape:%s", o.Shape)
 		}
 	}
@@ -498,7 +554,7 @@ func CheckVerdict(c Case) (vs hx.Vs, ev evidence) {
 
 func TestVerdict(t *testing.T) {
 	R.Rule("TestVerdict", "case = dialect + pool of 1-4 statements (grammar generator, corpus, SELECTs nested as union arm / derived table / sub-select in expression / INSERT..SELECT) + chain of 1-5 handlers whose query, table and pattern rules are derived from pool statements (patterns by generalising literals, IN lists, columns, WHERE, sub-selects, the whole statement) + the statement under test (a pool statement, re-formatted or corrupted); the configuration is rendered to YAML and loaded by AcraCensor.LoadConfiguration; every rule is evaluated in isolation against the reference matcher and the full verdict against the documented chain semantics. Non-trivial = a rule matches per the reference or the statement is the source of a pattern")
-	hx.Checks(750, 20000)
+	hx.Checks(500, 20000)
 	rapid.Check(t, func(rt *rapid.T) {
 		c := genCase(rt)
 		vs, ev := CheckVerdict(c)
